@@ -26,6 +26,26 @@ func init() {
 			}
 			ts = append(ts, Task{Pkg: "oned", Func: "VerifC10ParityTables", Note: "6-bit parity pattern free"})
 			ts = append(ts, Task{Pkg: "oned", Func: "VerifC10Ext5", Fresh: true, Backends: mod, Timeout: 120, Note: "EAN-5 add-on: five free digits, free 5-bit parity pattern"})
+			for _, sc := range []int64{1, 2, 3} {
+				ts = append(ts, Task{Pkg: "oned", Func: "VerifC10Ext2", Args: ints(sc), Note: "EAN-2 add-on at sc pixels per module: all 100 values x 4 parity patterns (concrete per path)"})
+			}
+			// Code 93 C / K and Code 128 mod-103 (character values made concrete per path by solver-enumerated forks)
+			for _, a := range [][2]int64{{1, -1}, {1, 0}, {1, 1}, {1, 2}, {2, -1}, {3, -1}} {
+				if a[0] == 3 && tier != "thorough" {
+					continue
+				}
+				ts = append(ts, Task{Pkg: "oned", Func: "VerifC10Code93", Args: a[:], Note: "free data characters, position of a substituted character in data+C+K (< 0: none)"})
+			}
+			if tier == "thorough" {
+				for pos := int64(0); pos < 4; pos++ {
+					ts = append(ts, Task{Pkg: "oned", Func: "VerifC10Code93", Args: ints(2, pos)})
+				}
+			}
+			for tmpl, nsym := range []int64{12, 6, 10} {
+				for pos := int64(0); pos < nsym; pos++ {
+					ts = append(ts, Task{Pkg: "oned", Func: "VerifC10Code128", Args: ints(int64(tmpl), pos), Note: "template (mixed A/B, code set C digits, control characters), index of the symbol character replaced by each of the 106 other patterns"})
+				}
+			}
 			seeds := []int64{seed, seed + 1}
 			if tier == "thorough" {
 				seeds = []int64{seed, seed + 1, seed + 2, seed + 3, seed + 4, seed + 5}
@@ -43,16 +63,18 @@ func init() {
 		},
 		Bounds: func(tier string) map[string]interface{} {
 			return map[string]interface{}{
-				"mod10":         "all 7/11/12 payload digits free at once (check digit formula); every single substitution at every position of 8/12/13-digit numbers with all digits free",
-				"upce":          "expand(suppress(n)) for all suppressible 11-digit numbers per rule; UPC-E reader checksum on the expansion for all 8-digit numbers",
-				"parity":        "all 64 parity patterns (EAN-13 first digit, UPC-E number system + check digit) against tables typed from the GS1 specification",
-				"writers":       "EAN-13, EAN-8, UPC-E: one free digit at each position plus free supplied check digit; remaining digits from seeds",
-				"addon":         "EAN-5 check value for all 100000 add-ons at once and its parity table",
-				"not_yet_built": "Code 128 mod-103, Code 93 C/K, EAN-2 add-on parity",
+				"mod10":   "all 7/11/12 payload digits free at once (check digit formula); every single substitution at every position of 8/12/13-digit numbers with all digits free",
+				"upce":    "expand(suppress(n)) for all suppressible 11-digit numbers per rule; UPC-E reader checksum on the expansion for all 8-digit numbers",
+				"parity":  "all 64 parity patterns (EAN-13 first digit, UPC-E number system + check digit) against tables typed from the GS1 specification",
+				"writers": "EAN-13, EAN-8, UPC-E: one free digit at each position plus free supplied check digit; remaining digits from seeds",
+				"addon":   "EAN-5 check value for all 100000 add-ons at once and its parity table",
+				"ean2":    "EAN-2 add-on: all 100 values x 4 parity patterns at 1..3 pixels per module through decodeRow",
+				"code93":  "C and K of 1..2 (thorough 3) free data characters against the standard's formula; every single substitution in data+C+K of 1 (thorough 2) data characters fails the reader's check",
+				"code128": "three templates; every symbol character (start, data, check) replaced by each of the other 105 patterns: DecodeRow gives an error or the original text",
 			}
 		},
 		Exhaustive:  func(tier string) bool { return false },
-		Outside:     []string{"Code 128 / Code 93 checksum substitutions and EAN-2 add-on parity (no harness yet)", "reading a substituted symbol through the image path (C03)"},
+		Outside:     []string{"Code 128 / Code 93 contents other than the stated templates / lengths", "reading a substituted symbol through the image path (C03)"},
 		Stubs:       []string{"mod-10 obligations decided by cvc5 --solve-bv-as-int=sum (z3 as second opinion in the portfolio)"},
 		Assumptions: commonAssumptions,
 	}
